@@ -232,6 +232,8 @@ pub struct World {
     pub sent: Vec<OutPacket>,
     pub remote_of: BTreeMap<u64, u64>,
     pub keys: Vec<u64>,
+    /// native denominations by model id (key = 2 * id); the third one is named like a cw20 voucher of token 0 but for the case of its prefix
+    pub natives: Vec<String>,
 }
 
 fn set_block(app: &mut IApp, height: u64, time_ns: u64) {
@@ -280,11 +282,23 @@ impl World {
         let code = app.store_code(Box::new(
             ContractWrapper::new(ics_execute, ics_instantiate, ics_query).with_sudo(ics_sudo).with_reply(ics_reply).with_migrate(ics_migrate),
         ));
-        let mut keys: Vec<u64> = vec![0, 2];
+        let natives: Vec<String> = vec![NATIVES[0].to_string(), NATIVES[1].to_string(), format!("CW20:{}", tokens[0])];
+        {
+            let us = users.clone();
+            let odd = natives[2].clone();
+            app.init_modules(|router, _, storage| {
+                for u in &us {
+                    let mut coins: Vec<Coin> = NATIVES.iter().map(|d| coin(RICH, *d)).collect();
+                    coins.push(coin(RICH, odd.clone()));
+                    router.bank.init_balance(storage, u, coins).unwrap();
+                }
+            });
+        }
+        let mut keys: Vec<u64> = vec![0, 2, 4];
         for tk in &tokens {
             keys.push(2 * pool.id(tk.as_str()).unwrap() as u64 + 1);
         }
-        World { app, pool, users, tokens, ics: None, code, creator, height: h, time: t, sent: vec![], remote_of: BTreeMap::new(), keys }
+        World { app, pool, users, tokens, ics: None, code, creator, height: h, time: t, sent: vec![], remote_of: BTreeMap::new(), keys, natives }
     }
     fn arg(&self, a: &Arg) -> String {
         match a {
@@ -299,7 +313,7 @@ impl World {
         if let Some(a) = denom.strip_prefix("cw20:") {
             return 2 * self.id(a) as u64 + 1;
         }
-        match NATIVES.iter().position(|d| *d == denom) {
+        match self.natives.iter().position(|d| d == denom) {
             Some(i) => 2 * i as u64,
             None => match denom.strip_prefix("junk").and_then(|x| x.parse::<u64>().ok()) {
                 Some(j) if j < 1_000_000 => 2 * j,
@@ -315,8 +329,8 @@ impl World {
             } else {
                 format!("cw20:{}", MockApi::default().addr_make(&format!("ghost{}", a)))
             }
-        } else if (k / 2) < 2 {
-            NATIVES[(k / 2) as usize].to_string()
+        } else if ((k / 2) as usize) < self.natives.len() {
+            self.natives[(k / 2) as usize].clone()
         } else {
             format!("junk{}", k / 2)
         }
@@ -451,7 +465,7 @@ impl World {
         }
         let bal_of = |a: &Addr, k: u64| -> u128 {
             if k % 2 == 0 {
-                q.query_balance(a, NATIVES[(k / 2) as usize]).map(|c| c.amount.u128()).unwrap_or(0)
+                q.query_balance(a, self.natives.get((k / 2) as usize).cloned().unwrap_or_default()).map(|c| c.amount.u128()).unwrap_or(0)
             } else {
                 let tok = self.pool.addr((k / 2) as usize);
                 let r: StdResult<cw20::BalanceResponse> = q.query_wasm_smart(&tok, &cw20::Cw20QueryMsg::Balance { address: a.to_string() });
@@ -503,7 +517,7 @@ impl World {
                     .iter()
                     .map(|(d, n)| Coin {
                         denom: match d {
-                            Den::Plain(i) => NATIVES[*i].to_string(),
+                            Den::Plain(i) => self.natives[*i].clone(),
                             Den::Prefixed(a) => format!("cw20:{}", self.pool.addr(*a)),
                         },
                         amount: *n,
@@ -655,7 +669,7 @@ impl World {
         let ics = self.ics.clone().unwrap();
         let from = self.users[0].clone();
         if k % 2 == 0 {
-            let _ = self.app.send_tokens(from, ics, &[Coin { denom: NATIVES[(k / 2) as usize].into(), amount: n }]);
+            let _ = self.app.send_tokens(from, ics, &[Coin { denom: self.natives.get((k / 2) as usize).cloned().unwrap_or_default(), amount: n }]);
         } else {
             let tok = self.pool.addr((k / 2) as usize);
             let _ = self.app.execute_contract(from, tok, &Cw20ExecuteMsg::Transfer { recipient: ics.to_string(), amount: n }, &[]);
@@ -823,6 +837,7 @@ pub fn generate(seed: u64, case: u64, max_steps: usize) -> Ran {
         match r.below(4) {
             0 => {}
             1 => allow.push((Arg::Id(*tk), None)),
+            2 => allow.push((Arg::Id(*tk), Some(70_000 + r.below(3) * 1000))), // the range of the migrate defaults
             _ => allow.push((Arg::Id(*tk), Some(100_000 + r.below(5) * 1000))),
         }
     }
@@ -899,7 +914,7 @@ pub fn generate(seed: u64, case: u64, max_steps: usize) -> Ran {
         };
         let kind = r.below(100);
         let step = if kind < 18 {
-            let d = r.below(2) as usize;
+            let d = if r.chance(1, 8) { 2 } else { r.below(2) as usize };
             let funds = match r.below(12) {
                 0 => vec![],
                 1 => vec![(Den::Plain(0), Uint128::new(5)), (Den::Plain(1), Uint128::new(5))],
@@ -964,28 +979,30 @@ pub fn generate(seed: u64, case: u64, max_steps: usize) -> Ran {
             }
         } else if kind < 88 {
             let c = if r.chance(5, 6) { Arg::Id(*r.pick(&tok_ids)) } else if r.chance(1, 2) { Arg::Id(user) } else { Arg::Bad };
-            let gas = match r.below(5) {
+            let gas = match r.below(8) {
                 0 => None,
                 1 => Some(1),
+                2 => Some(u64::MAX),
+                3 => Some(70_000 + r.below(3) * 1000), // the range of the migrate defaults
                 _ => Some(90_000 + r.below(8) * 5000),
             };
             Step::Exec { h, t, s: if r.chance(5, 6) { admin } else { user }, op: Op::Allow { c, gas } }
         } else if kind < 92 {
             Step::Exec { h, t, s: if r.chance(3, 4) { admin } else { user }, op: Op::UpdateAdmin { a: if r.chance(1, 8) { Arg::Bad } else { Arg::Id(*r.pick(&user_ids)) } } }
-        } else if kind < 95 {
+        } else if kind < 94 {
             Step::Donate { k: *r.pick(&w.keys), n: Uint128::new(1 + r.below(40) as u128) }
-        } else if kind < 98 && !legacy_done {
+        } else if kind < 97 && !legacy_done {
             legacy_done = true;
             Step::SetVersion { v: match r.below(8) { 0 | 1 | 2 => 1, 3 | 4 => 2, 5 => 3, 6 => 4, _ => 5 + r.below(2) as u8 } }
         } else {
-            Step::Migrate { h, t, gas: if r.chance(1, 2) { Some(70_000 + r.below(3) * 1000) } else { None } }
+            Step::Migrate { h, t, gas: match r.below(5) { 0 | 1 => None, 2 => Some(90_000 + r.below(8) * 5000), _ => Some(70_000 + r.below(3) * 1000) } }
         };
         // a legacy layout is migrated right away (the old code could not run on it anyway)
         let follow = matches!(step, Step::SetVersion { .. });
         run_step(&mut w, &step, &mut ran);
         ran.trace.steps.push(step);
         if follow {
-            let m = Step::Migrate { h, t, gas: if r.chance(1, 2) { Some(70_000 + r.below(3) * 1000) } else { None } };
+            let m = Step::Migrate { h, t, gas: match r.below(5) { 0 | 1 => None, 2 => Some(90_000 + r.below(8) * 5000), _ => Some(70_000 + r.below(3) * 1000) } };
             run_step(&mut w, &m, &mut ran);
             ran.trace.steps.push(m);
         }
